@@ -216,6 +216,16 @@ def check_property(prop, tier, seed, units, no_kani=False, verbose=False):
                 kani_notes.append('kani harness %s: %s' % (h['name'], h['status']))
         for m in kani_res.get('machinery', []):
             undecided.append('kani: ' + m)
+    exec_ev = None
+    if tier == 'thorough' and kani_cfg.get('exec') and not no_kani:
+        import run_kani
+        exec_ev = run_kani.run_exec(kani_cfg['exec'])
+        for h in exec_ev:
+            if h['status'] != 'SUCCESSFUL':
+                f = {'obligation': 'exec:' + h['name'], 'fn': h['target'], 'props': [prop], 'message': 'bounded exhaustive execution FAILED', 'rendered': h['output_tail'],
+                     'src': None, 'construct': None, 'detail': h['bounded'], 'replay_extra': 'the failing case is printed by the assertion message above (executed on the real code)\n' + h['output_tail']}
+                obligations['exec:' + h['name']] = {'props': [prop], 'kind': 'exec-bounded', 'fn': h['name'], 'text': h['what']}
+                violations.append(('exec', f))
     selftest_ev = None
     if tier == 'thorough' and not violations and vx.REPO == '/repo':
         # mutation regression of the contracts themselves (scratch copies, never /repo)
@@ -272,6 +282,7 @@ def check_property(prop, tier, seed, units, no_kani=False, verbose=False):
             'known_findings_reported': [k['what'] for k, _ in known_hits],
             'undecided': undecided,
             'selftest': selftest_ev,
+            'bounded_by_execution': exec_ev,
             'kani_notes': kani_notes,
             'smt_run_ms_total': smt_ms,
         },
